@@ -64,6 +64,9 @@ def fold_string(e, resolve=None):
             fmt = _stream_format(h)
             if fmt is not None:
                 return [('numfmt', amap.get(fmt[0], fmt[0]), fmt[1])]
+            tab = _number_text_table(h)
+            if tab is not None:
+                return [('numfmt', amap.get(tab[0], tab[0]), ('fixed', 6) if not tab[1] else ('text-table', tab[1][:3]))]
     raise ValueError('not a string template: ' + SX.show(e)[:60])
 
 
@@ -95,6 +98,33 @@ def _stream_format(h):
     if len(data) != 1:
         return None
     return data[0], (mode, prec)
+
+
+SAMPLE_ANGLES = (0.0, 1.0, 10.0, 20.0, 100.0, 1200.0, -30.0, 0.5, 1.5, 20.5, 3.141593, -0.000001, 123456.789, 0.1, 1e-7, 100.01)
+
+
+def _number_text_table(h):
+    """helper std::string h(double): evaluated from its syntax tree on sample angles (K-ABS with the usual string operations);
+    the text must be a plain decimal real whose value is the angle rounded to six decimals — what std::to_string prints.
+    → (parameter name, [mismatches]) or None when the helper has another shape or uses operations outside the interpreter"""
+    import re as _re
+    from ..kabs import Interp, Unsupported, OutOfRange
+    nums = [p for p in h.params if p['type'] in ('double', 'float', 'const double')]
+    if len(nums) != 1 or len(h.params) != 1 or 'string' not in (h.ret or ''):
+        return None
+    bad = []
+    for v in SAMPLE_ANGLES:
+        try:
+            got = Interp(PROG, {}, max_steps=2000).call_fn(h, [v])
+        except OutOfRange as ex:
+            bad.append('%r → %s' % (v, ex))
+            continue
+        except Unsupported:
+            return None
+        want = float('%f' % v)
+        if not (isinstance(got, str) and _re.match(r'^-?\d+(\.\d+)?$', got) and abs(float(got) - want) < 5e-7):
+            bad.append('%r printed as "%s"' % (v, got))
+    return nums[0]['name'], bad
 
 
 def _merge(parts):
@@ -187,7 +217,11 @@ def run(prog, chk):
         f = f0
         want = _template(f, sim)
         # a formatter other than std::to_string is the same placeholder iff it prints fixed notation with at least six decimals
-        bad_fmt = [x for x in parts if isinstance(x, tuple) and x[0] == 'numfmt' and not (x[2][0] == 'fixed' and (x[2][1] or 0) >= 6)]
+        bad_tab = [x for x in parts if isinstance(x, tuple) and x[0] == 'numfmt' and x[2][0] == 'text-table']
+        if bad_tab:
+            chk.ob('R05.2', f, apps[0].ln, False, '%s prints its angle through a text helper that does not preserve the value (to six decimals) for: %s' % (f.short, '; '.join(bad_tab[0][2][1])),
+                   key='template-format:' + f.short)
+        bad_fmt = [x for x in parts if isinstance(x, tuple) and x[0] == 'numfmt' and x[2][0] != 'text-table' and not (x[2][0] == 'fixed' and (x[2][1] or 0) >= 6)]
         if bad_fmt:
             chk.ob('R05.2', f, apps[0].ln, False,
                    '%s prints its angle in %s notation with precision %s; the listing must carry at least the six decimals of std::to_string in fixed notation '
